@@ -381,38 +381,42 @@ fn c03(seed: u64, _cases: usize, _model_path: &str) -> serde_json::Value {
         if (role == 0 && adv_is_eval) || (role == 1 && !adv_is_eval) { continue; }
         if field == "equivocate" && n == 2 { continue; }
         for rep in 0..3 {
-            // circuit: the victim (party 0) has two inputs (registers 0, 1), every other party one (party p: register p + 1);
-            // out = ((x00 & x1) ^ x01) ^ x2 ..., plus an output that is an input
-            let mut insts: Vec<Inst> = vec![Inst { out: Reg(0), op: Op::Input(Input { party: 0, input: 0 }) }, Inst { out: Reg(1), op: Op::Input(Input { party: 0, input: 1 }) }];
-            for p in 1..n { insts.push(Inst { out: Reg(p as u32 + 1), op: Op::Input(Input { party: p as u32, input: 0 }) }); }
-            let om = n as u32 + 1;
-            insts.push(Inst { out: Reg(om), op: Op::And(And(Reg(0), Reg(2))) }); insts.push(Inst { out: Reg(om), op: Op::Xor(Xor(Reg(om), Reg(1))) });
-            if n == 3 { insts.push(Inst { out: Reg(om), op: Op::Xor(Xor(Reg(om), Reg(3))) }); }
-            let mut ir = vec![1; n]; ir[0] = 2;
-            let c = Circuit { input_regs: ir, insts, max_reg_count: n + 2, output_regs: vec![Reg(om), Reg(0)], and_ops: 1 };
-            let inputs: Vec<Vec<bool>> = (0..n).map(|p| (0..if p == 0 { 2 } else { 1 }).map(|_| r.bool()).collect()).collect();
-            let p_eval = if adv_is_eval { 1 } else { 0 }; let p_out: Vec<usize> = (0..n).collect();
+            // roles rotate with `rep`: (adversary, victim) = (1,0), (0,n-1), (n-1, n-2 or 0): the victim's index is below, above and (n = 3) between
+            let (adv, victim) = match (rep, n) { (0, _) => (1usize, 0usize), (1, _) => (0, n - 1), (_, 2) => (1, 0), _ => (2, 1) };
+            // circuit: the victim has two inputs, every other party one (registers in party order);
+            // out = ((v0 & a) ^ v1) ^ others ..., plus an output that is an input of the victim
+            let mut ir = vec![1usize; n]; ir[victim] = 2;
+            let base: Vec<u32> = (0..n).map(|p| ir[..p].iter().sum::<usize>() as u32).collect();
+            let mut insts: Vec<Inst> = vec![];
+            for p in 0..n { for k in 0..ir[p] { insts.push(Inst { out: Reg(base[p] + k as u32), op: Op::Input(Input { party: p as u32, input: k as u32 }) }); } }
+            let om = n as u32 + 1; let (v0, v1, aw) = (base[victim], base[victim] + 1, base[adv]);
+            insts.push(Inst { out: Reg(om), op: Op::And(And(Reg(v0), Reg(aw))) }); insts.push(Inst { out: Reg(om), op: Op::Xor(Xor(Reg(om), Reg(v1))) });
+            for q in 0..n { if q != adv && q != victim { insts.push(Inst { out: Reg(om), op: Op::Xor(Xor(Reg(om), Reg(base[q]))) }); } }
+            let c = Circuit { input_regs: ir.clone(), insts, max_reg_count: n + 2, output_regs: vec![Reg(om), Reg(v0)], and_ops: 1 };
+            let inputs: Vec<Vec<bool>> = (0..n).map(|p| (0..ir[p]).map(|_| r.bool()).collect()).collect();
+            let p_eval = if adv_is_eval { adv } else { victim }; let p_out: Vec<usize> = (0..n).collect();
             let args: Vec<PartyArgs> = (0..n).map(|p| PartyArgs { inputs: inputs[p].clone(), p_eval, p_own: p, p_out: p_out.clone(), tmp_dir: None }).collect();
-            let (ph, fl) = (phase.to_string(), field.to_string()); let victim = 0usize; let nn = n + 1;
-            let m: exec::Mutator = Box::new(move |from, to, p, k, d| { if from != 1 || p != ph || k != 0 { return Some(d); }
+            let (ph, fl) = (phase.to_string(), field.to_string()); let nn = om as usize; let (v0, v1, aw) = (v0 as usize, v1 as usize, aw as usize);
+            let m: exec::Mutator = Box::new(move |from, to, p, k, d| { if from != adv || p != ph || k != 0 { return Some(d); }
                 let to_victim = to == victim;
                 Some(match (ph.as_str(), fl.as_str()) {
-                    ("wire shares", f) | ("output wire shares", f) if to_victim => { let mut v: Vec<Option<(bool, u128)>> = de(&d); let idx = if ph == "wire shares" { victim } else { nn };
-                        let idx2 = if ph == "wire shares" { 1 } else { 0 };   // the victim's second input wire / the second output register
+                    ("wire shares", f) | ("output wire shares", f) if to_victim => { let mut v: Vec<Option<(bool, u128)>> = de(&d); let idx = if ph == "wire shares" { v0 } else { nn };
+                        let idx2 = if ph == "wire shares" { v1 } else { v0 };   // the victim's second input wire / the second output register
                         match f { "bit" => { if let Some(e) = v[idx].as_mut() { e.0 = !e.0; } } "bit2" => { for i in [idx, idx2] { if let Some(e) = v[i].as_mut() { e.0 = !e.0; } } } "mac" => { if let Some(e) = v[idx].as_mut() { e.1 ^= 1 << 77; } } _ => v[idx] = None } ser(&v) }
-                    ("masked inputs", "claim_victim_wire") if to_victim => { let mut v: Vec<Option<bool>> = de(&d); v[victim] = Some(true); ser(&v) }
-                    ("masked inputs", "equivocate") if to_victim => { let mut v: Vec<Option<bool>> = de(&d); if let Some(b) = v[2].as_mut() { *b = !*b; } ser(&v) }
-                    ("labels", _) if to_victim => { let mut v: Vec<Option<u128>> = de(&d); if let Some(l) = v[0].as_mut() { *l ^= 1; } ser(&v) }
+                    ("masked inputs", "claim_victim_wire") if to_victim => { let mut v: Vec<Option<bool>> = de(&d); v[v0] = Some(true); ser(&v) }
+                    ("masked inputs", "equivocate") if to_victim => { let mut v: Vec<Option<bool>> = de(&d); if let Some(b) = v[aw].as_mut() { *b = !*b; } ser(&v) }
+                    // the label of a wire that feeds the AND gate: the evaluator consumes it as an AEAD key (a label that only reaches XOR gates is consumed by nobody but the garbler itself)
+                    ("labels", _) if to_victim => { let mut v: Vec<Option<u128>> = de(&d); if let Some(l) = v[v0].as_mut() { *l ^= 1; } ser(&v) }
                     ("preprocessed gates", _) if to_victim => { let mut v: Vec<[Vec<u8>; 4]> = de(&d); for row in v[0].iter_mut() { row[5] ^= 0x80; } ser(&v) }
                     ("lambda", f) if to_victim => { let mut v: Vec<Option<(bool, u128)>> = de(&d);
-                        match f { "value" => { if let Some(e) = v[nn].as_mut() { e.0 = !e.0; } } "value2" => { for i in [nn, 0] { if let Some(e) = v[i].as_mut() { e.0 = !e.0; } } } "label" => { if let Some(e) = v[nn].as_mut() { e.1 ^= 2; } } _ => v[nn] = None } ser(&v) }
+                        match f { "value" => { if let Some(e) = v[nn].as_mut() { e.0 = !e.0; } } "value2" => { for i in [nn, v0] { if let Some(e) = v[i].as_mut() { e.0 = !e.0; } } } "label" => { if let Some(e) = v[nn].as_mut() { e.1 ^= 2; } } _ => v[nn] = None } ser(&v) }
                     _ => d }) });
             let run = exec::run(&c, &args, &cfg, Some(m)); execs += 1; let o = &run.outs[victim];
             *dist.entry(format!("field:{phase}/{field}")).or_default() += 1; *dist.entry(format!("n:{n}")).or_default() += 1; *dist.entry(format!("outcome:{}", ["ok", "err", "panic", "blocked"][okind(o) as usize])).or_default() += 1;
-            distinct.insert((n, phase, field, adv_is_eval));
-            let desc = json!({"n": n, "phase": phase, "field": field, "adversary": if adv_is_eval { "evaluator(1)" } else { "garbler(1)" }, "victim": 0, "inputs": inputs.iter().map(|v| circ::bits(v)).collect::<Vec<_>>(), "rep": rep});
+            distinct.insert((n, phase, field, adv_is_eval, adv, victim)); *dist.entry(format!("adv->victim:{adv}->{victim}")).or_default() += 1;
+            let desc = json!({"n": n, "phase": phase, "field": field, "adversary": format!("{}({adv})", if adv_is_eval { "evaluator" } else { "garbler" }), "victim": victim, "inputs": inputs.iter().map(|v| circ::bits(v)).collect::<Vec<_>>(), "rep": rep});
             // C02 oracle: Ok must be f(x_H, x') for some x'
-            if let Out::Ok(v) = o { let allowed: Vec<Vec<bool>> = [false, true].iter().map(|x1| { let mut i = inputs.clone(); i[1] = vec![*x1]; c.eval(&i) }).collect();
+            if let Out::Ok(v) = o { let allowed: Vec<Vec<bool>> = [false, true].iter().map(|x1| { let mut i = inputs.clone(); i[adv] = vec![*x1]; c.eval(&i) }).collect();
                 if !allowed.contains(v) { failures.push(json!({"property": "C02", "witness": if phase == "output wire shares" && field == "missing" { "C02-a:missing-output-share" } else { "C02:other" }, "failure": format!("honest party accepted {} not in {:?}", circ::bits(v), allowed.iter().map(|a| circ::bits(a)).collect::<Vec<_>>()), "case": desc.clone()})); } }
             // C03 oracle: a forged authenticated value must make its consumer abort (a flipped *unused* value may legitimately go unnoticed: only `equivocate` with n=3 can hit the echo of another party first)
             match o { Out::Err(_) => {}
@@ -439,24 +443,31 @@ fn c04(seed: u64, cases: usize, _model_path: &str) -> serde_json::Value {
     let phases = ["RNG comm", "RNG ver", "CO_OT_s", "CO_OT_r", "CO_OT_c0c1", "ALSZ_OT_setup", "KOS_OT_x_t0_t1", "KOS_OT_corr", "fabitn", "fashare comm", "fashare ver", "fashare di_bi", "haand", "flaand", "flaand comm", "flaand hash", "dvalue", "faand"];
     // phases in which EVERY payload bit is covered by a check (MAC, commitment opening, hash comparison, echo broadcast): an accepted flip there is
     // unverified correlated randomness even when the output happens to be right. `fashare comm` is strict only in its third component (cm), because
-    // exactly one of c0/c1 is legitimately never opened. The OT messages and `flaand` carry values the receiver may legitimately never use.
-    let strict = |phase: &str, pos: usize| -> bool { match phase { "RNG comm" | "RNG ver" | "fabitn" | "fashare ver" | "fashare di_bi" | "haand" | "flaand comm" | "flaand hash" | "dvalue" | "faand" => true, "fashare comm" => (pos - 8) % 96 >= 64, _ => false } };
-    for n in [2usize, 3] { let c = mk_circ(n); for phase in phases { for occurrence in [0usize, 1] { for all_recipients in [false, true] { for fixed in [None, Some(8 + 64 + 3usize), Some(8 + 96 * 39 + 64 + 31)] {
-        if n == 2 && all_recipients { continue; }
-        if fixed.is_some() && phase != "fashare comm" { continue; }
+    // exactly one of c0/c1 is legitimately never opened. The OT messages, `haand` (the receiver uses H0 or H1 of a pair, depending on its own bit) and `flaand` carry values the receiver may legitimately never use.
+    let strict = |phase: &str, pos: usize| -> bool { match phase { "RNG comm" | "RNG ver" | "fabitn" | "fashare ver" | "fashare di_bi" | "flaand comm" | "flaand hash" | "dvalue" | "faand" => true, "fashare comm" => (pos - 8) % 96 >= 64, _ => false } };
+    // position of the flipped bit: usize::MAX = seeded random, usize::MAX - 1 = last byte of the message, otherwise the absolute byte offset
+    // (8 = first payload byte; the two `fashare comm` offsets hit the third commitment of the first and of the last entry).
+    const RANDOM: usize = usize::MAX; const LAST: usize = usize::MAX - 1;
+    for (n, adv, victim) in [(2usize, 1usize, 0usize), (2, 0, 1), (3, 1, 0), (3, 0, 2), (3, 2, 1)] { let c = mk_circ(n); for phase in phases { for occurrence in [0usize, 1] { for all_recipients in [false, true] { for fixed in [RANDOM, 8, LAST, 8 + 64 + 3usize, 8 + 96 * 39 + 64 + 31] {
+        if all_recipients && (n == 2 || fixed != RANDOM) { continue; }
+        if fixed != RANDOM && fixed != 8 && fixed != LAST && phase != "fashare comm" { continue; }
+        if (fixed == 8 || fixed == LAST) && occurrence != 0 { continue; }            // first / last element: first occurrence only
+        if fixed == RANDOM && adv != 1 { continue; }                                 // seeded positions: adversary 1, victim 0 (as before)
         let inputs: Vec<Vec<bool>> = (0..n).map(|_| vec![r.bool()]).collect();
         let args: Vec<PartyArgs> = (0..n).map(|p| PartyArgs { inputs: inputs[p].clone(), p_eval: 0, p_own: p, p_out: (0..n).collect(), tmp_dir: None }).collect();
         let ph = phase.to_string(); let mut rr = r.fork(); let hit = std::rc::Rc::new(std::cell::Cell::new(false)); let hit2 = hit.clone();
         // flip one bit in the payload area (after the 8-byte length prefix) of the chosen message(s): a wrong value, well-formed structure
         let pos_seed = rr.next();
         let at = std::rc::Rc::new(std::cell::Cell::new(0usize)); let at2 = at.clone();
-        let m: exec::Mutator = Box::new(move |from, to, p, k, mut d| { if from != 1 || p != ph || k != occurrence || (!all_recipients && to != 0) || d.len() <= 9 { return Some(d); }
-            let i = match fixed { Some(f) if f < d.len() => f, _ => 8 + (pos_seed as usize) % (d.len() - 8) }; d[i] ^= 1 << (pos_seed >> 40) % 8; hit2.set(true); at2.set(i); Some(d) });
+        let m: exec::Mutator = Box::new(move |from, to, p, k, mut d| { if from != adv || p != ph || k != occurrence || (!all_recipients && to != victim) || d.len() <= 9 { return Some(d); }
+            let i = if fixed == LAST { d.len() - 1 } else if fixed != RANDOM && fixed < d.len() { fixed } else { 8 + (pos_seed as usize) % (d.len() - 8) };
+            d[i] ^= if fixed == RANDOM { 1 << (pos_seed >> 40) % 8 } else { 1 }; hit2.set(true); at2.set(i); Some(d) });
         let run = exec::run(&c, &args, &RunCfg { cap: 1, sched: Sched::RoundRobin, keep_payloads: false }, Some(m)); execs += 1;
         if !hit.get() { continue; }
-        let o = &run.outs[0]; *dist.entry(format!("phase:{phase}")).or_default() += 1; *dist.entry(format!("outcome:{}", ["ok", "err", "panic", "blocked"][okind(o) as usize])).or_default() += 1;
-        distinct.insert(format!("{n}/{phase}/{occurrence}/{all_recipients}/{fixed:?}"));
-        let desc = json!({"n": n, "phase": phase, "occurrence": occurrence, "all_recipients": all_recipients, "victim": 0, "byte": at.get()});
+        let o = &run.outs[victim]; *dist.entry(format!("phase:{phase}")).or_default() += 1; *dist.entry(format!("outcome:{}", ["ok", "err", "panic", "blocked"][okind(o) as usize])).or_default() += 1;
+        *dist.entry(format!("position:{}", if fixed == RANDOM { "random" } else if fixed == LAST { "last" } else if fixed == 8 { "first" } else { "cm" })).or_default() += 1; *dist.entry(format!("adv->victim:{adv}->{victim}/n{n}")).or_default() += 1;
+        distinct.insert(format!("{n}/{adv}/{victim}/{phase}/{occurrence}/{all_recipients}/{fixed}"));
+        let desc = json!({"n": n, "phase": phase, "occurrence": occurrence, "all_recipients": all_recipients, "adversary": adv, "victim": victim, "byte": at.get()});
         match o { Out::Err(_) => {}
             Out::Ok(v) => { // a flipped bit that is semantically irrelevant (e.g. padding, an unused row) may legitimately pass; a changed OUTPUT may not
                 let want = c.eval(&inputs); if *v != want { failures.push(json!({"witness": "C04:wrong-ok", "failure": format!("victim completed with {} (clear text {}) after a wrong {phase} value", circ::bits(v), circ::bits(&want)), "case": desc})); }
@@ -475,7 +486,7 @@ fn c04(seed: u64, cases: usize, _model_path: &str) -> serde_json::Value {
     // Vec<(Vec<bool>,Vec<Mac>)> with 4 entries each = 8 + 84k (+8 to the first bit); Vec<(bool,bool)> = 8 + 2k; `fashare ver` (n = 2) = 8 + 25r (+8 to the bit).
     let multi: Vec<(&str, Vec<usize>)> = vec![("faand", vec![8, 9]), ("faand", vec![8, 8 + 34]), ("faand", vec![9, 9 + 34]), ("faand", vec![8, 9, 8 + 34, 9 + 34]),
         ("fabitn", vec![8, 8 + 17]), ("fabitn", vec![8 + 17 * 5, 8 + 17 * 119]), ("dvalue", vec![16, 17]), ("dvalue", vec![16, 16 + 84]), ("dvalue", vec![16, 17, 18, 19]),
-        ("haand", vec![8, 9]), ("haand", vec![8, 10]), ("fashare ver", vec![16, 16 + 25]), ("fashare ver", vec![16, 16 + 25 * 39])];
+        ("haand", vec![8, 9]) /* both bits of one pair: the one the receiver uses is wrong for sure */, ("fashare ver", vec![16, 16 + 25]), ("fashare ver", vec![16, 16 + 25 * 39])];
     for (phase, offs) in multi { for occurrence in [0usize, 1] { let n = 2; let c = mk_circ2(n);
         let inputs: Vec<Vec<bool>> = (0..n).map(|_| vec![r.bool()]).collect();
         let args: Vec<PartyArgs> = (0..n).map(|p| PartyArgs { inputs: inputs[p].clone(), p_eval: 0, p_own: p, p_out: (0..n).collect(), tmp_dir: None }).collect();
